@@ -283,6 +283,16 @@ def build_tissue(spec, frame=0):
     rc = {v: (round(p[0], 3), round(p[1], 3)) for v, p in coords.items()}
     if len(set(rc.values())) != len(rc):
         raise ValueError("coincident points after rounding")
+    # an almost collapsed mesh edge: two different points of one interface at the same rounded position
+    # (what the Surface Evolver reader's 3-decimal rounding makes of a very short edge); ids stay distinct
+    if spec.get("coincident"):
+        cr = _rng(spec, "coincident")
+        cand = [rk for rk in rkeys if len(ridge_pts[rk]) >= 3 and rk not in lens_arc2]
+        cr.shuffle(cand)
+        for rk in cand[:spec["coincident"]]:
+            ids = ridge_pts[rk]
+            m = cr.randrange(len(ids) - 1)
+            rc[ids[m + 1]] = rc[ids[m]]
 
     # id maps
     ir = _rng(spec, "ids" if not spec.get("ids_per_frame") else f"ids:{frame}")
@@ -468,6 +478,8 @@ def random_spec(rng, *, max_side=6, kmax=40, for_solver=False, frames=1, min_rid
             spec["scale"] = rng.choice([10.0, 24.0, 40.0])
         if rng.random() < 0.3:
             spec["store_order"] = "shuffle"
+        if not for_solver and rng.random() < 0.08:
+            spec["coincident"] = rng.choice([1, 1, 2])      # mesh histories only: a zero-length edge has no direction
         if rng.random() < 0.12 and spec["pts"].get("mode") != "list":
             spec["lens"] = rng.choice([1, 1, 2])
             if spec["pts"]["mode"] == "const":
